@@ -117,6 +117,36 @@ theorem read_wakes_dispatcher (r : Rx) (n : Nat) (b : List Nat) (r' : Rx) (ws : 
     · simp only [ho, if_false] at h
       split at h <;> (try split at h) <;> simp at h
 
+theorem flushLoop_dispatcherWaker (fuel : Nat) (r : Rx) (win f p : Nat) (r' : Rx) (win' f' p' : Nat)
+    (h : Rx.flushLoop fuel r win f p = some (r', win', f', p')) : r'.dispatcherWaker = r.dispatcherWaker := by
+  induction fuel generalizing r win f p with
+  | zero => simp only [Rx.flushLoop, Option.some.injEq, Prod.mk.injEq] at h; rw [← h.1]
+  | succ n ih =>
+    unfold Rx.flushLoop at h
+    split at h
+    · simp only [Option.some.injEq, Prod.mk.injEq] at h; rw [← h.1]
+    · split at h
+      · simp at h
+      · have := ih _ _ _ _ h; simpa using this
+
+/-- **No lost wake-up, reader → connection (registration half)**: whenever `flush` leaves less than one
+segment of room in the reader's queue window (in particular whenever a zero window is about to be
+advertised), it has registered the connection's waker - on EVERY call, whether or not anything changed
+since the previous one - so the next read that returns bytes (`read_wakes_dispatcher`) re-polls the
+connection and the window update goes out. -/
+theorem flush_registers_when_window_low (r r' : Rx) (n : Nat) (ws : List Wake)
+    (hlow : r.queueWindow - r.ooq.filledFrontBytes < r.maxIncomingPayload)
+    (h : r.flush = some (r', n, ws)) : r'.dispatcherWaker = true := by
+  unfold Rx.flush at h
+  simp only [hlow, if_true] at h
+  split at h
+  · simp at h
+  · rename_i r2 win flushed pkts hl
+    have := flushLoop_dispatcherWaker _ _ _ _ _ _ _ _ _ hl
+    simp only [Option.some.injEq, Prod.mk.injEq] at h
+    rw [← h.1]
+    split <;> simp_all
+
 /-- **Each useful acknowledgement makes strict progress**: an ACK whose number is at or beyond the
 first unacknowledged segment removes at least one segment from the queue (so `snd_una` advances). -/
 theorem ack_makes_progress (s : Segments) (now ackNr : Nat) (sack : Option Sack) (h : SInv s) (hu : s.sndUna < 65536)
